@@ -125,6 +125,12 @@ def fuzzyEqInt1 (signed : Bool) (bits : Nat) (a b : Int) (rel abs : Nat) : Bool 
     | some p => decide (du ≤ max p (abs : Int))
   | _, _ => false
 
+/-- element-wise int → binary64 conversion of an integer array -/
+def intsToF64 (xs : List Int) : Option (List Int) :=
+  xs.foldr (fun x acc => match intToF64 x, acc with
+    | some u, some l => some (u :: l)
+    | _, _ => none) (some [])
+
 /-! ### tolerance resolution -/
 
 def maxAbsUnits (a : NdArr) : Nat := a.data.foldl (fun m x => max m x.natAbs) 0
@@ -218,6 +224,25 @@ def fuzzyCheck (rel abs : Tol) (a b : NdArr) : Verdict :=
       match resolveTol F rel a b, resolveTol F abs a b with
       | some r, some t => findFuzzy F a b r t
       | _, _ => .err
+    | .flt F, .int _ _ =>
+      -- the integer side is converted to binary64 by numpy's promotion (int × float64 → float64)
+      if F ≠ f64 then .err else
+      match intsToF64 b.data with
+      | none => .err
+      | some bd =>
+        let b' : NdArr := { b with dtype := .flt f64, data := bd }
+        match resolveTol f64 rel a b', resolveTol f64 abs a b' with
+        | some r, some t => findFuzzy f64 a b' r t
+        | _, _ => .err
+    | .int _ _, .flt G =>
+      if G ≠ f64 then .err else
+      match intsToF64 a.data with
+      | none => .err
+      | some ad =>
+        let a' : NdArr := { a with dtype := .flt f64, data := ad }
+        match resolveTol f64 rel a' b, resolveTol f64 abs a' b with
+        | some r, some t => findFuzzy f64 a' b r t
+        | _, _ => .err
     | .int sg bits, .int sg' bits' =>
       if sg ≠ sg' ∨ bits ≠ bits' then .err else
       -- default tolerance for integers is 0.0
@@ -247,5 +272,45 @@ def defaultCheck (rel abs : Tol) (a b : NdArr) : Verdict :=
 def scaledTolerance (base : Nat) (a b : NdArr) : Option Nat :=
   if a.data.isEmpty ∨ b.data.isEmpty then none
   else rndMag f64 (base * max (maxAbsUnits a) (maxAbsUnits b)) UNIT
+
+/-- `ScaledTolerance(base)(a, b)` on two integer arrays of type (signed, bits):
+    `max_abs_value` takes numpy's wrapping `abs` first (so the type minimum stays negative),
+    converts the maximum to a Python float, and multiplies in binary64. -/
+def scaledToleranceInt (signed : Bool) (bits : Nat) (base : Nat) (a b : List Int) : Option Int :=
+  if a.isEmpty ∨ b.isEmpty then none
+  else
+    let mx (l : List Int) : Int := (l.map (wrapAbs signed bits)).foldl max (wrapAbs signed bits (l.headD 0))
+    match intToF64 (mx a), intToF64 (mx b) with
+    | some ua, some ub => rndInt f64 ((max ua ub) * base) UNIT
+    | _, _ => none
+
+/-! ### the predicate *object* and its mutable state (`_last_used_rel_tol/_last_used_abs_tol`) -/
+
+/-- a `FuzzyEquality` object: constructor tolerances plus the tolerances resolved in the
+    previous evaluation (kept by the code for reporting only) -/
+structure FuzzyObj where
+  rel : Tol
+  abs : Tol
+  lastRel : Option RTol := none
+  lastAbs : Option RTol := none
+deriving Repr
+
+/-- one evaluation `obj(a, b)`: the resolved tolerances are stored, the verdict is computed
+    from the constructor tolerances and the operands -/
+def FuzzyObj.call (o : FuzzyObj) (a b : NdArr) : FuzzyObj × Verdict :=
+  let (s1, s2) := reshapePair a.shape b.shape
+  let a' := { a with shape := s1 }
+  let b' := { b with shape := s2 }
+  let o' :=
+    if s1 ≠ s2 then o
+    else match sameFloat a b with
+      | some F => { o with lastRel := resolveTol F o.rel a' b', lastAbs := resolveTol F o.abs a' b' }
+      | none => o
+  (o', fuzzyCheck o.rel o.abs a b)
+
+/-- a whole history of evaluations on one object: the list of verdicts -/
+def FuzzyObj.history (o : FuzzyObj) : List (NdArr × NdArr) → List Verdict
+  | [] => []
+  | (a, b) :: rest => let (o', v) := o.call a b; v :: FuzzyObj.history o' rest
 
 end Fc
